@@ -3,7 +3,7 @@
    Engine/Model.v notions (plus ok_event / ok_cfg / comps_ok of WFDefs.v). *)
 From GM Require Import Base.Prelude Base.Outcome Codec.Packets Codec.Settings Engine.Model
   EngineProofs.AssocLemmas EngineProofs.PacketIds EngineProofs.WFLemmas EngineProofs.WFDefs EngineProofs.WFCore
-  EngineProofs.WFComplete EngineProofs.WFClose EngineProofs.WFClose2 EngineProofs.WFStep.
+  EngineProofs.WFComplete EngineProofs.WFClose EngineProofs.WFClose2 EngineProofs.WFStep EngineProofs.WFTrack.
 From Coq Require Import Sorting.Sorted.
 From RecordUpdate Require Import RecordSet.
 Import RecordSetNotations.
@@ -201,6 +201,22 @@ Section Props.
     intros Ho0 Hi0 Hall Hst. destruct (reachable_wf o0 i0 h Ho0 Hi0 Hall) as [[HW HP] _].
     set (s := fst (run (init o0 i0) h)) in *. cbn [Model.step]. unfold out_of_res. cbn [fst snd o_res].
     destruct (net_closed_spec cfg s HW Hst) as (E & W1 & S1 & _ & Hpid). rewrite E. cbn [halt_on_error].
-    exact (proj1 Hpid).
+    exact (proj1 (proj1 Hpid)).
+  Qed.
+  (* ---- no operation is silently dropped (needs: submitted PUBLISH packets are not duplicates) ---- *)
+  Theorem no_silent_drop (o0 : ores) (i0 : ires) h :
+    ores_inv HC o0 -> ires_inv HC i0 -> Forall ok_event h -> Forall ok_submit h ->
+    forall id op, lookup id (s_ops (fst (run (init o0 i0) h))) = Some op ->
+      In id (s_uq (fst (run (init o0 i0) h))) \/ In id (s_rq (fst (run (init o0 i0) h))) \/
+      In id (s_hq (fst (run (init o0 i0) h))) \/ s_cur (fst (run (init o0 i0) h)) = Some id \/
+      In id (s_pwco (fst (run (init o0 i0) h))) \/
+      In id (map snd (s_ppub (fst (run (init o0 i0) h)))) \/ In id (map snd (s_pnon (fst (run (init o0 i0) h)))).
+  Proof.
+    intros Ho Hi Hall Hsub id op Hop.
+    pose proof (WF_run _ _ _ enc_done _ _ _ _ _ _ _ _ _ _ _ _ HC Hcfg h _ (WF_init _ _ _ _ _ _ _ _ _ _ _ _ _ _ _ HC o0 i0 Ho Hi) Hall) as HWX.
+    pose proof (run_tr _ _ _ enc_done _ _ _ _ _ _ _ _ _ _ _ _ HC Hcfg h _ (WF_init _ _ _ _ _ _ _ _ _ _ _ _ _ _ _ HC o0 i0 Ho Hi)
+                  (TR_init enc dec dec_init ores ires o0 i0) Hall Hsub) as HT.
+    destruct HWX as [[HW _] _].
+    destruct (all_tracked _ HW HT id op Hop) as [Q|Q]; [|tauto]. unfold inQ in Q. tauto.
   Qed.
 End Props.
